@@ -26,6 +26,12 @@ func main() {
 	defer sn.CleanupScratch()
 	sn.InitLogs()
 	log.SetOutput(ioutil.Discard) // the crypto library reports malformed keys through the std logger
+	// watch-dog: a hang (of the harness or of the code under test) makes the run inconclusive
+	go func() {
+		time.Sleep(time.Duration(r.N(15, 90)) * time.Minute)
+		r.Inconclusive("watch-dog: the run did not finish in time; parts after the last progress line on stderr were not executed")
+		r.Finish()
+	}()
 	step := func(name string, f func()) {
 		t := time.Now()
 		func() {
@@ -55,6 +61,7 @@ func main() {
 	r.Floor("tdpos.accept.refused.other-validator", 10000)
 	r.Floor("tdpos.accept.refused.outsider", 10000)
 	r.Floor("tdpos.accept.via-pluggable-configs", 1000)
+	r.Floor("tdpos.elected.configs", 500)
 	r.Floor("xpoa.tiling.configs", 96)
 	r.Floor("xpoa.accept.configs|init", 90)
 	r.Floor("xpoa.accept.configs|edited", 40)
@@ -70,6 +77,7 @@ func main() {
 	r.Floor("pow.retarget.agree|adjust", 20)
 	r.Floor("pow.retarget.agree|adjust-clamped-low", 10)
 	r.Floor("pow.retarget.agree|adjust-clamped-high", 10)
+	r.Floor("pow.restart.probes", 100)
 	r.Floor("pow.accept.accepted", 100)
 	r.Floor("pow.accept.refused|id-above-target", 30)
 	r.Floor("pow.accept.refused|timestamp-1ns-before-parent", 30)
